@@ -76,7 +76,7 @@ RoundDiv(t, a) == (2 * t + a) \div (2 * a)
 (* qualifyOneFlip(answers, reportsCount, totalGradeScore, approveCnt, reportCommitteeSize,                       *)
 (*                gradeScoreCommitteeSize) with the answers given by their counts (getAnswersCount).            *)
 (* Result: status, answer, grade and the grade score as a fraction gsn / gsd (decimal in the code).             *)
-(* Domain: u11 => u10 (the upgrades are sequential: with u11 and without u10 the code may divide by zero).      *)
+(* Domain: u11 => u10 (the upgrades are sequential: no network version has upgrade 11 without upgrade 10).      *)
 QualifyOneFlip(nl, nr, nn, rep, tg, ap, rcs, gcs, u10, u11) ==
     LET n        == nl + nr + nn
         reported == ReportedRule(rep, rcs)
